@@ -896,7 +896,7 @@ func c14ChildRace() {
 // severed: the dispatcher closes the session and runs the cleanup within microseconds.
 func c14ChildOpenRace() {
 	runtime.GOMAXPROCS(2)
-	rounds := venvInt("VERIF_C14_ROUNDS", 8)
+	rounds := venvInt("VERIF_C14_ROUNDS", 12)
 	var opened, failed int64
 	for r := 0; r < rounds; r++ {
 		id := 9700 + r
@@ -925,10 +925,12 @@ func c14ChildOpenRace() {
 			}()
 		}
 		time.Sleep(time.Duration(5+3*r) * time.Millisecond)
+		// the session must die on the dispatcher goroutine (remote close): then the cleanup follows the
+		// shutdown flag within microseconds
 		if r%2 == 0 {
-			syscall.Shutdown(ss.connFd, syscall.SHUT_RDWR) // peer death as the dispatcher sees it
+			syscall.Shutdown(ss.connFd, syscall.SHUT_RDWR) // connection broken
 		} else {
-			cs.Close()
+			ss.Close() // the peer closes
 		}
 		done := make(chan struct{})
 		go func() { wg.Wait(); close(done) }()
@@ -937,10 +939,10 @@ func c14ChildOpenRace() {
 		case <-time.After(15 * time.Second):
 			fmt.Println("HANG OpenStream loops did not stop after the session closed")
 		}
-		time.Sleep(1500 * time.Millisecond)
+		time.Sleep(200 * time.Millisecond)
 		ss.Close()
 		cs.Close()
-		time.Sleep(1200 * time.Millisecond)
+		time.Sleep(1100 * time.Millisecond)
 	}
 	fmt.Printf("STATS opened=%d failed=%d\n", opened, failed)
 	fmt.Println("DONE")
